@@ -101,6 +101,18 @@ def histories(ck):
             out.append(pre + [("disk", b, (), y), ("edit", b, (), x), ("root", r, None, None)])
             out.append(pre + [("disk", b, (), y), ("editroot", r, (), "class C%d;" % r), ("disk", b, (), x), ("editroot", b, (), x), ("disk", b, (), y), ("root", r, None, None)])
             out.append(pre + [("disk", b, (), y), ("disk", b, (), x), ("editroot", b, (), y), ("editroot", r, (b,), "class C%d;" % r)])
+    # texts of equal length that differ only in their last few bytes (every length modulo 8), as successive versions of one file,
+    # as two files selected one after the other, and as versions of an included file: whatever is remembered about a text under a
+    # key shorter than the text shows here (each history twice: with and without queries after every operation)
+    if nfiles >= 2:
+        for pad in range(8):
+            t = lambda tag, k=0: "class C%d;%s\ndef Reg%s;" % (k, " " * pad, tag)
+            for h in ([("editroot", 0, (), t("1")), ("edit", 0, (), t("")), ("edit", 0, (), t("2")), ("root", 0, None, None)],
+                      [("editroot", 0, (), t("1")), ("edit", 0, (), t("2")), ("root", 0, None, None)],
+                      [("editroot", 0, (), t("1")), ("editroot", 1, (), t("2")), ("root", 1, None, None)],
+                      [("edit", 1, (), t("7", 1)), ("editroot", 0, (1,), "class C0;"), ("edit", 1, (), t("8", 1)), ("edit", 0, (1,), "class C0; def u : C1;"), ("root", 0, None, None)]):
+                out.append(h)
+                out.append(list(h))
     # files that change on disk behind the host's back (included files that are not open), interleaved with edits and root
     # switches; such a history ends with the client sending a document and the server selecting it as root
     for _ in range(400 if quick else 30000):
